@@ -177,3 +177,92 @@ class Sim:
         n0 = len(g.STATE.executed)
         cmd.invoke(arg, True)
         return g.STATE.executed[n0:]
+
+
+class GdbSession:
+    """The unmodified plugin (backends.gdb_plugin.plugin.Plugin + Controller + ConnectionManager) running on the shim,
+    wired as main.main() wires it in GDB_PLUGIN mode.  Output goes through plugin.output_streams() -> gdb.write."""
+
+    def __init__(self, filter_text=None, stop_text=None, show_unprocessed=True):
+        from . import env
+        env.load_protocols()
+        env.reset_globals(False)
+        self.world = World()
+        self.gdb = self.world.gdb
+        self.gdb.reset()
+        self.sim = Sim(self.world)
+        from core import matcher, ConnectionManager
+        from core.output import Output
+        from frontends.tui import Controller
+        from backends import gdb_plugin
+        out_stream, err_stream = gdb_plugin.plugin.output_streams()
+        self.output = Output(False, show_unprocessed, out_stream, err_stream)
+        self.cm = ConnectionManager()
+        fm = matcher.parse(filter_text).simplify() if filter_text else matcher.always
+        sm = matcher.parse(stop_text).simplify() if stop_text else matcher.never
+        self.ctl = Controller(self.output, self.cm, fm, sm)
+        self.plugin = gdb_plugin.plugin.Plugin(self.output, self.cm, self.ctl, self.ctl)
+        self.conns = {}         # harness connection key -> dict(addr, display/client, side)
+
+    def written_since(self, n0):
+        return [s.rstrip('\n') for _, s in self.gdb.STATE.written[n0:]]
+
+    def mark(self):
+        return len(self.gdb.STATE.written), len(self.gdb.STATE.executed)
+
+    def new_connection(self, key, side):
+        w = self.world
+        addr = w.connection()
+        c = {'addr': addr, 'side': side}
+        if side == 'client':
+            c['display'] = w.display(addr)
+        else:
+            c['client'] = w.client(addr)
+        self.conns[key] = c
+        return c
+
+    def reuse_address(self, key, old_key, side):
+        """a later connection at the same address (libwayland freed and re-allocated the wl_connection)"""
+        w = self.world
+        addr = self.conns[old_key]['addr']
+        c = {'addr': addr, 'side': side}
+        if side == 'client':
+            c['display'] = w.display(addr)
+        else:
+            c['client'] = w.client(addr)
+        self.conns[key] = c
+        return c
+
+    def event_for(self, key, rec, rng=None, thread=1):
+        """history record -> inferior event at the breakpoint the plugin sets"""
+        w = self.world
+        c = self.conns[key]
+        request = rec['send_c']
+        sending = request if c['side'] == 'client' else not request
+        args = []
+        for a in rec['args']:
+            a = dict(a)
+            if a['k'] == 'o':
+                a['decl'] = None if a['v'] is None else a['v']['iface']
+            args.append(a)
+        sig = ''.join(a['k'] for a in args)
+        if rng is not None:
+            sig = signature_of(rng, {'args': args})
+        clo_desc = {'name': rec['name'], 'id': rec['id'], 'args': args, 'sig': sig}
+        if sending:
+            clo = w.closure(clo_desc)
+            return {'kind': 'send', 'closure': clo, 'connection': c['addr'], 'thread': thread,
+                    'func': 'wl_closure_send' if rng is None or rng.random() < 0.5 else 'wl_closure_queue'}
+        if c['side'] == 'client':
+            clo = w.closure(clo_desc, new_id_as_object=True)
+            return {'kind': 'recv', 'side': 'client', 'closure': clo, 'target': w.wl_object(rec['iface'], rec['id'], as_proxy=True),
+                    'display': c['display'], 'thread': thread, 'func': 'wl_closure_invoke' if rng is None or rng.random() < 0.5 else 'wl_closure_dispatch'}
+        clo = w.closure(clo_desc)
+        return {'kind': 'recv', 'side': 'server', 'closure': clo, 'target': w.wl_object(rec['iface'], rec['id'], resource_client=c['client']),
+                'client': c['client'], 'thread': thread, 'func': 'wl_closure_invoke' if rng is None or rng.random() < 0.5 else 'wl_closure_dispatch'}
+
+    def deliver(self, ev):
+        return self.sim.deliver(ev)
+
+    def destroy(self, addr, thread=1):
+        return self.sim.deliver({'kind': 'destroy', 'connection': addr, 'thread': thread})
